@@ -24,7 +24,7 @@ RULE = ('worlds = every combination of 3 declaration chains out of a menu of '
         'order and runs no code, per-layer order equal in every mode. '
         'non-trivial = >=1 filter or mode option')
 ASSUMPTIONS = [
-    'single test module (several modules and overlapping search paths are C14\'s business)',
+    'the declaration worlds are a single in-memory test module; two modules on disk under repeated / overlapping search roots are discovered for real (6 root vectors x 10 filter lists)',
     'children are in-process real Runners',
 ]
 BOUND = {
@@ -63,6 +63,9 @@ def cases(tier, seed):
         for nie in (False, True):
             for fi in range(len(FILTERS)):
                 yield [w, nie, fi]
+    for rk in DISK_ROOTS:
+        for fi in range(len(DISK_FILTERS)):
+            yield ['disk', rk, fi]
     for a, b in itertools.permutations(HOSTILE, 2):
         for mode in NAME_MODES:
             yield ['names', [a, b], mode]
@@ -113,6 +116,100 @@ def run_names_case(names, mode):
         V('verdict_failed_for_passing_world', 'failures %s errors %s\n%s' % (r.failures, r.errors, r.text[-600:]))
     if mode != 'seq' and not r.children:
         V('harness_no_children', '')
+    return viol
+
+
+# ---- real discovery: two modules on disk, overlapping / repeated search roots
+DISK_A = {'mod': 'vtw.tests',
+          'layers': [{'n': 'LA', 'b': [], 'k': 'c', 'h': list(worlds.HOOKS_SD)}],
+          'tests': [{'n': 'a0', 'l': None, 's': 'pass'}, {'n': 'a1', 'l': None, 's': 'pass'},
+                    {'n': 'a2', 'l': 'LA', 's': 'pass'}]}
+DISK_B = {'mod': 'vtw.sub.tests',
+          'layers': [{'n': 'LB', 'b': [], 'k': 'c', 'h': list(worlds.HOOKS_SD)}],
+          'tests': [{'n': 'b0', 'l': None, 's': 'pass'}, {'n': 'b1', 'l': 'LB', 's': 'pass'},
+                    {'n': 'B2', 'l': 'LB', 's': 'pass'}]}
+DISK_ROOTS = {
+    'one': lambda r: ['--path', r],
+    'twice': lambda r: ['--path', r, '--path', r],
+    'path+test-path': lambda r: ['--path', r, '--test-path', r],
+    'pkg+subpkg': lambda r: ['--path', r, '-s', 'vtw', '-s', 'vtw.sub'],
+    'subpkg+pkg': lambda r: ['--path', r, '-s', 'vtw.sub', '-s', 'vtw'],
+    'pkg twice': lambda r: ['--path', r, '-s', 'vtw', '-s', 'vtw'],
+}
+DISK_FILTERS = [[], ['-t', 'a0', '-t', 'b1'], ['-t', '(?i)A1 ', '-t', 'b0'],
+                ['-t', r'_(a)0 .*\1', '-t', r'_(b)1 .*\1'], ['-t', '!a', '-t', '!(?i)b2 '],
+                ['-m', 'sub', '-t', '0'], ['--layer', 'LA|LB', '-t', '(?i)b'],
+                # negated module patterns that match a *package* name only
+                ['-m', '!sub$'], ['-m', '!^vtw$', '-m', r'!\.sub$'], ['-m', 'vtw', '-m', r'!vtw(?!\.sub)']]
+DISK_IDS = {}
+for _sp in (DISK_A, DISK_B):
+    for _t in _sp['tests']:
+        DISK_IDS[_t['n']] = ('test_%s (%s.T_%s.test_%s)' % (_t['n'], _sp['mod'], _t['n'], _t['n']),
+                             _sp['mod'],
+                             'zope.testrunner.layer.UnitTests' if _t['l'] is None else _sp['mod'] + '.' + _t['l'])
+
+
+def disk_reference(flt):
+    from vt.props import c08
+    pats = {'-t': [], '-m': [], '--layer': []}
+    i = 0
+    while i < len(flt):
+        pats[flt[i]].append(flt[i + 1])
+        i += 2
+    out = []
+    for tid, (s, mod, lay) in DISK_IDS.items():
+        if pats['-t'] and not c08.spec_accept(pats['-t'], s):
+            continue
+        if pats['-m'] and not c08.spec_accept(pats['-m'], mod):
+            continue
+        if pats['--layer'] and not c08.spec_accept(pats['--layer'], lay):
+            continue
+        out.append(tid)
+    return sorted(out)
+
+
+def run_disk_case(rk, fi):
+    import os
+    import sys
+    from vt import env
+    from vt import worldrt
+    flt = DISK_FILTERS[fi]
+    root = env.scratch('vtc03')
+    viol = []
+    sig = {'part': 'disk', 'roots': rk}
+    try:
+        worldrt.write_disk(DISK_A, root)
+        worldrt.write_disk(DISK_B, root)
+        argv = DISK_ROOTS[rk](root) + flt
+        want = disk_reference(flt)
+        added = False
+        if root not in sys.path:
+            sys.path.insert(0, root)
+            added = True
+        try:
+            lst = runrt.run_plain(argv + ['--list-tests'], roots=[root])
+            run = runrt.run_plain(argv, roots=[root])
+        finally:
+            if added and root in sys.path:
+                sys.path.remove(root)
+    finally:
+        env.rmtree(root)
+    d = 'search roots %s, filters %s: ' % (rk, flt)
+    for r, what in ((lst, 'list'), (run, 'run')):
+        if r.escaped:
+            viol.append({'clause': 'run_aborted', 'sig': dict(sig, mode=what), 'detail': d + r.escaped_tb})
+    if lst.escaped or run.escaped:
+        return viol
+    listed = sorted(m.group(1) for ln in lst.text.split('\n') for m in [TEST_RE.match(ln)] if m)
+    ran = sorted(ev[2] for ev in run.trace if ev[1] == 't' and ev[3] == 'body')
+    if listed != want:
+        viol.append({'clause': 'listing_differs_from_selection', 'sig': dict(sig, mode='list'),
+                     'detail': d + 'listed %s, reference %s' % (listed, want)})
+    if ran != want:
+        viol.append({'clause': 'executed_multiset', 'sig': dict(sig, mode='seq'),
+                     'detail': d + 'executed %s, reference %s' % (ran, want)})
+    if any(ev[1] == 't' for ev in lst.trace):
+        viol.append({'clause': 'list_mode_ran_code', 'sig': dict(sig, mode='list'), 'detail': d})
     return viol
 
 
@@ -175,6 +272,9 @@ def parse_listing(text):
 
 
 def run_case(case):
+    if case[0] == 'disk':
+        viol = run_disk_case(case[1], case[2])
+        return {'evals': 2, 'nontrivial': 2, 'violations': viol, 'outcome': ('disk', case[1])}
     if case[0] == 'names':
         viol = run_names_case(case[1], case[2])
         return {'evals': 1, 'nontrivial': 1, 'violations': viol, 'outcome': ('names', case[2])}
